@@ -82,7 +82,7 @@ def run(chk):
         return ex, drive_async(ex, fn, [Ptr('sm'), Ptr('co')], State())
 
     def exchange(mode):
-        ex = make_sm_executor(chk, dict(unroll=6, max_header_bytes=4, env_assume=mk_assume(mode)), cuts=('appset',))
+        ex = make_sm_executor(chk, dict(unroll=6, max_header_bytes=21, env_assume=mk_assume(mode)), cuts=("appset",))
         fn = find_method(ex, 'StateMachine::do_omaha_request_and_update_context')
         return ex, drive_async(ex, fn, [Ptr('sm'), Ptr('builder'), Ptr('co')], State())
 
